@@ -88,12 +88,12 @@ Proof.
   - apply parse_int_safe_str_of_Z. exact Hn.
 Qed.
 
-Lemma roundtrip_list_resp header l hl : l <> [] -> Forall clean l ->
+Lemma roundtrip_list_resp header l hl : Forall clean l ->
   let '(hl', e) := resp_set conv_list header (PStrs l) hl in
   e = None /\ hg_get (lower header) hl' = Some (join comma_sp l) /\
   resp_get conv_list header hl' = Ok (VList (map VStr l)).
 Proof.
-  intros Hne Hl. apply resp_set_get.
+  intros Hl. apply resp_set_get.
   - discriminate.
   - reflexivity.
   - apply join_no_crlf. exact Hl.
